@@ -3,56 +3,54 @@
    Hierarchy: 0 -> 1, 2 ; 1 -> 3 ; 2 -> 3 (diamond). *)
 From Coq Require Import List Arith Bool PeanoNat Lia Permutation.
 From Krrood Require Import Onto.RegistrySpec Onto.Registry Onto.RegistryLemmas Onto.RegistryInv Onto.RegistryProofs
-  Onto.RegistryQuery Onto.RegistryRel Onto.Lifetime.
+  Onto.RegistryQuery Onto.RegistryRel Onto.RegistryRefine Onto.Lifetime.
 Import ListNotations.
 
 Definition wch (c : cls) : list cls := match c with 0 => [1; 2] | 1 => [3] | 2 => [3] | _ => [] end.
 Definition wfuel := 4.
 Notation wrun h := (fst (run wch wfuel init h)).
 Notation wout s o := (snd (step wch wfuel s o)).
+Notation wspec h := (fst (spec_run wch wfuel a_init h)).
 
+(* ---------------------------------------------------------------- open findings *)
 (* C13-d: after SymbolGraph().clear() the instances created before are invisible to a domain-less variable *)
 Lemma refuted_clear :
   exists h T, adm_run wch wfuel init h = true /\
               wout (wrun h) (QueryG T) = OInst [] /\ spec_query wch wfuel (live (wrun h)) T = [0].
 Proof. exists [New 0 0 0; Clear], 0. vm_compute. auto. Qed.
 
-(* C13-b: a query object evaluated again replays the domain it cached: the new instance is missing *)
-Lemma refuted_stale_variable :
-  exists h k, adm_run wch wfuel init h = true /\
-              wout (wrun h) (EvalV k) = OInst [Some 0] /\
-              snd (spec_step wch wfuel (fst (spec_run wch wfuel a_init h)) (EvalV k)) = OInst [Some 0; Some 1].
-Proof. exists [New 0 0 0; QueryE 0; New 1 1 1], 0. vm_compute. auto. Qed.
-
-(* C13-c = C20-a: an instance the program has dropped is still returned: the first query's cached domain holds it *)
-Lemma refuted_pinned :
-  exists h T, adm_run wch wfuel init h = true /\ user (wrun h) = [] /\
-              wout (wrun h) (QueryG T) = OInst [Some 0] /\
-              sreach (refs (wrun h)) HExprTable (HObj 0).
+(* C13-e: an instance that dies while an evaluation is being consumed row by row, before its turn, is handed out as None *)
+Lemma refuted_live_death :
+  exists h n, adm_run wch wfuel init h = true /\
+              wout (wrun h) (NextV n (Some None)) = OInst [None] /\
+              snd (spec_step wch wfuel (wspec h) (NextV n (Some None))) = OErr.
 Proof.
-  exists [New 0 0 0; QueryE 0; Drop 0], 0. split; [|split; [|split]]; try (vm_compute; reflexivity).
-  apply cache_pins. vm_compute. reflexivity.
+  exists [New 0 0 0; New 0 1 1; DeclV 0; StartV 0; NextV 0 (Some (Some 0)); Drop 1], 0. vm_compute. auto.
 Qed.
 
-(* every evaluated query leaves one more variable (and its cached domain) in the process-wide expression table *)
-Lemma expr_table_grows s T : length (vars (fst (step wch wfuel s (QueryE T)))) = S (length (vars s)).
-Proof. simpl. rewrite app_length. simpl. lia. Qed.
-
+(* C20-a2: every query object leaves one entry in the process-wide expression tables, whatever is dropped *)
 Lemma refuted_expr_growth :
-  exists h, adm_run wch wfuel init h = true /\ live (wrun h) = [O 0 0 0] /\ user (wrun h) = [] /\ length (vars (wrun h)) = 3.
-Proof. exists [New 0 0 0; QueryE 0; Drop 0; QueryE 0; QueryE 1]. vm_compute. auto. Qed.
+  exists h, adm_run wch wfuel init h = true /\ live (wrun h) = [] /\ user (wrun h) = [] /\ length (vars (wrun h)) = 3.
+Proof. exists [New 0 0 0; QueryE 0; Drop 0; QueryE 0; DeclV 1]. vm_compute. auto. Qed.
 
-(* non-vacuity of eval_correct: a variable declared, then the world changes, then the first evaluation *)
-Example declared_then_evaluated :
-  let h := [New 0 0 0; DeclV 0; New 1 1 1; Drop 0; Sweep; New 3 0 0] in
-  adm_run wch wfuel init h = true /\ no_clear h = true /\
-  nth_error (vars (wrun h)) 0 = Some (0, VPending) /\ live (wrun h) = [O 1 1 1; O 2 3 0] /\
-  wout (wrun h) (EvalV 0) = OInst [Some 1; Some 2].
-Proof. vm_compute. repeat split; reflexivity. Qed.
+(* ---------------------------------------------------------------- regression examples of the repaired defects *)
+(* C13-b (769edfe): a query object evaluated again ranges over the instances existing at THAT evaluation *)
+Example reevaluation_is_fresh :
+  let h := [New 0 0 0; QueryE 0; New 1 1 1] in
+  adm_run wch wfuel init h = true /\
+  wout (wrun h) (EvalV 0) = OInst [Some 0; Some 1] /\
+  snd (spec_step wch wfuel (wspec h) (EvalV 0)) = OInst [Some 0; Some 1].
+Proof. vm_compute. auto. Qed.
 
-(* regression examples of the repaired defects *)
+(* C13-c / C20-a (769edfe): an evaluated query does not keep the instances it ranged over *)
+Example evaluated_query_holds_nothing :
+  let h := [New 0 0 0; QueryE 0; Drop 0] in
+  adm_run wch wfuel init h = true /\ live (wrun h) = [] /\ wout (wrun h) (QueryG 0) = OInst [] /\
+  sizes (g (fst (step wch wfuel (wrun h) Sweep))) = [0; 0; 0; 0; 0].
+Proof. vm_compute. auto. Qed.
+
 (* C13-a (a83ee6a): an instance of the diamond class 3 is returned once for a query on 0 *)
-Example diamond_once : wout (wrun [New 3 0 0; New 1 1 1]) (QueryG 0) = OInst [Some 1; Some 0].
+Example diamond_once : wout (wrun [New 3 0 0; New 1 1 1]) (QueryE 0) = OInst [Some 1; Some 0].
 Proof. vm_compute. reflexivity. Qed.
 
 (* C14-a / C20-b (1bd8ea9): indices 1,0 and the addresses are reused after a sweep; the new relation is new,
@@ -63,13 +61,40 @@ Example reuse_relation_new :
   wout (wrun h) (Relate 3 0 2 0 1) = OBool true /\ sizes (g (wrun h)) = [2; 2; 2; 0; 0].
 Proof. vm_compute. auto. Qed.
 
-(* non-vacuity: a history with reuse, a diamond instance, relations and a registry query satisfies every hypothesis *)
+(* ---------------------------------------------------------------- non-vacuity *)
+(* a variable declared, then the world changes, then evaluated -- twice, with a change in between *)
+Example declared_then_evaluated :
+  let h := [New 0 0 0; DeclV 0; New 1 1 1; Drop 0; Sweep; New 3 0 0] in
+  adm_run wch wfuel init h = true /\ no_clear h = true /\
+  nth_error (vars (wrun h)) 0 = Some 0 /\ live (wrun h) = [O 1 1 1; O 2 3 0] /\
+  wout (wrun h) (EvalV 0) = OInst [Some 1; Some 2] /\
+  wout (wrun (h ++ [EvalV 0; Drop 1])) (EvalV 0) = OInst [Some 2].
+Proof. vm_compute. repeat split; reflexivity. Qed.
+
+(* a live iterator legitimately holds the rows it has handed out, until it is closed *)
+Example live_iterator_holds_rows :
+  let h := [New 0 0 0; New 1 1 1; DeclV 0; StartV 0; NextV 0 (Some (Some 0)); Drop 0] in
+  adm_run wch wfuel init h = true /\ live (wrun h) = [O 0 0 0; O 1 1 1] /\ user (wrun h) = [1] /\
+  pinned (evals (wrun h)) 0 = true /\
+  live (wrun (h ++ [CloseV 0])) = [O 1 1 1] /\
+  a_live (wspec (h ++ [CloseV 0])) = [O 1 1 1].
+Proof. vm_compute. repeat split; reflexivity. Qed.
+
+(* a history with reuse, a diamond instance, relations, declared / complete / repeated evaluations satisfies every hypothesis *)
 Definition sample_history : list op :=
-  [New 0 0 0; New 3 1 1; Relate 0 0 1 0 1; Drop 0; Sweep; New 2 0 0; Relate 2 0 1 0 1; QueryG 0; Relate 2 0 1 0 1].
+  [New 0 0 0; New 3 1 1; DeclV 0; Relate 0 0 1 0 1; Drop 0; Sweep; New 2 0 0; Relate 2 0 1 0 1; QueryG 0; EvalV 0;
+   Relate 2 0 1 0 1; QueryE 2; Drop 1; EvalV 0].
 
 Example sample_ok :
-  adm_run wch wfuel init sample_history = true /\ no_clear sample_history = true /\ no_eval sample_history = true /\
-  no_eql sample_history = true /\ desc_b wch wfuel 0 0 = false /\
+  adm_run wch wfuel init sample_history = true /\ no_clear sample_history = true /\ no_live sample_history = true /\
+  in_F sample_history = true /\ (forall T, T < 4 -> desc_b wch wfuel T T = false) /\
   snd (run wch wfuel init sample_history) =
-    [ONone; ONone; OBool true; ONone; ONone; ONone; OBool true; OInst [Some 2; Some 1]; OBool false].
-Proof. vm_compute. repeat split; reflexivity. Qed.
+    [ONone; ONone; ONone; OBool true; ONone; ONone; ONone; OBool true; OInst [Some 2; Some 1]; OInst [Some 2; Some 1];
+     OBool false; OInst [Some 2; Some 1]; ONone; OInst [Some 2]].
+Proof.
+  vm_compute. repeat split; try reflexivity.
+  intros T HT. do 4 (destruct T as [|T]; [reflexivity|]). lia.
+Qed.
+
+Lemma wch_acyclic : acyclic wch wfuel.
+Proof. intros T. do 4 (destruct T as [|T]; [reflexivity|]). reflexivity. Qed.
